@@ -1785,7 +1785,7 @@ def vrepr(v):
     if isinstance(v, Native):
         if isinstance(v.data, list):
             return f"N[{v.kind}]" + ",".join(vrepr(x) for x in v.data)
-        if isinstance(v.data, tuple) and v.kind in ("sstr", "chars", "strvec", "sliceiter"):
+        if isinstance(v.data, tuple) and v.kind in ("sstr", "chars", "strvec", "sliceiter", "kmap", "lmap", "lvec", "liter", "entry", "handle"):
             return f"N[{v.kind}]" + vrepr(v.data)
         return f"N[{v.kind}]{id(v.data)}"
     if isinstance(v, tuple):
